@@ -38,6 +38,7 @@ RULES = {
     "C09.a": "Python side: leaf rows/targets/weights co-indexed; one leaf numbering at fit and predict; intercept column position agrees with the Cython criterion",
     "C09.b": "Cython: each _mse call receives the mean and weight computed by _mean on the same index range; left=(start,pos), right=(pos,end)",
     "C09.d": "dispatch by criterion (path-sensitive evaluation with self.criterion bound to 'mselin' / 'simple'): fit -> tree fit then _fit_reglin on the same data iff 'mselin'; predict -> _predict_reglin iff 'mselin', else the tree's predict; max_depth and min_samples_leaf are written nowhere outside the constructor",
+    "C09.e": "Cython linear criterion: the LAPACK least-squares driver is called on (end - start) x nbvar with one right-hand side = weighted targets of the same rows, and discards singular values at machine precision only",
     "C09.c": "Cython fast criterion: prefix-sum reads S[hi-1] - (S[lo-1] if lo > 0 else 0); cumulative fill; zero-fill invariant for reads that omit the lower term",
 }
 
@@ -189,6 +190,102 @@ def _parents(n):
 
 def _calls(fn, name):
     return [c for c in ast.walk(fn) if isinstance(c, ast.Call) and isinstance(c.func, ast.Attribute) and c.func.attr == name and src_of(c.func.value) == "self"]
+
+
+_CTOR_LIKE = {"__cinit__", "__dealloc__", "__init__", "__getstate__", "__setstate__", "__reduce__", "__deepcopy__", "init", "init_with_X", "create", "impurity_improvement"}
+
+
+def _resolved_methods(repo, relpath, cname, common):
+    cm = cysrc.parse(repo, relpath)
+    k = cm.cls(cname)
+    meths = dict(common.methods)
+    meths.update(k.methods)
+    return k, meths
+
+
+def _writes_through(meths, fn, pname, depth=0):
+    """does the method store through its pointer parameter (p[0] = .., or by handing it on)?"""
+    if depth > 4:
+        return False
+    for n in ast.walk(fn):
+        if isinstance(n, (ast.Assign, ast.AugAssign)):
+            for t in (n.targets if isinstance(n, ast.Assign) else [n.target]):
+                if isinstance(t, ast.Subscript) and isinstance(t.value, ast.Name) and t.value.id == pname:
+                    return True
+        if isinstance(n, ast.Call) and isinstance(n.func, ast.Attribute) and src_of(n.func.value) == "self" and n.func.attr in meths:
+            callee = meths[n.func.attr]
+            params = [a.arg for a in callee.args.args][1:]
+            for i, a in enumerate(n.args):
+                if isinstance(a, ast.Name) and a.id == pname and i < len(params) and _writes_through(meths, callee, params[i], depth + 1):
+                    return True
+    return False
+
+
+def _field_writers(meths, field):
+    out = []
+    for mname, fn in meths.items():
+        if mname in _CTOR_LIKE:
+            continue
+        for n in ast.walk(fn):
+            if isinstance(n, (ast.Assign, ast.AugAssign)):
+                for t in (n.targets if isinstance(n, ast.Assign) else [n.target]):
+                    if src_of(t) == f"self.{field}":
+                        out.append(mname)
+            if isinstance(n, ast.Call) and isinstance(n.func, ast.Attribute) and src_of(n.func.value) == "self" and n.func.attr in meths:
+                callee = meths[n.func.attr]
+                params = [a.arg for a in callee.args.args][1:]
+                for i, a in enumerate(n.args):
+                    if src_of(a) == f"self.{field}" and i < len(params) and _writes_through(meths, callee, params[i]):
+                        out.append(mname)
+    return sorted(set(out))
+
+
+def check_b_state(ck, repo):
+    """every concrete criterion maintains the side weights its improvement reads"""
+    common = cysrc.parse(repo, COMMON).cls("CommonRegressorCriterion")
+    imp = common.methods.get("impurity_improvement")
+    for relpath, cname in ((SIMPLE, "SimpleRegressorCriterion"), (FAST, "SimpleRegressorCriterionFast"), (LINEAR, "LinearRegressorCriterion")):
+        k, meths = _resolved_methods(repo, relpath, cname, common)
+        fn = meths.get("impurity_improvement", imp)
+        if fn is None:
+            continue
+        reads = sorted({n.attr for n in ast.walk(fn) if isinstance(n, ast.Attribute) and src_of(n.value) == "self" and isinstance(n.ctx, ast.Load) and n.attr in ("weighted_n_left", "weighted_n_right")})
+        for field in reads:
+            ws = _field_writers(meths, field)
+            ck.verdict(bool(ws), "C09.b", None, f"{cname}: self.{field} maintained by {ws}", "the side weight read by impurity_improvement is kept up to date by a method of this criterion", f"{cname}.impurity_improvement reads self.{field}, but no method this class resolves (own or inherited: reset/update/_update_weights/proxy_impurity_improvement/children_impurity) ever writes it: the improvement is computed with the weight left by the constructor", file=relpath, function=f"{cname}.impurity_improvement", line=getattr(fn, "_orig_lineno", fn.lineno))
+
+
+def check_e(ck, repo):
+    """the least-squares solve of the linear criterion"""
+    lm = cysrc.parse(repo, LINEAR)
+    fi = cy_fi(lm, "LinearRegressorCriterion", "_reglin")
+    ex = cy_expander(repo)
+    where = dict(file=LINEAR, function="LinearRegressorCriterion._reglin")
+    solves = [c for c in ast.walk(fi.node) if isinstance(c, ast.Call) and isinstance(c.func, ast.Attribute) and c.func.attr in ("dgelss", "dgelsd", "dgelsy", "dgels")]
+    if len(solves) != 1:
+        ck.unknown("C09.e", None, "_reglin: LAPACK least-squares driver", f"{len(solves)} calls of a ?gels* driver found", line=fi.node.lineno, **where)
+        return
+    c = solves[0]
+    drv = c.func.attr
+    args = [ex.text(a, fi, c) for a in c.args]
+    ln = getattr(c, "_orig_lineno", c.lineno)
+    dims = args[:3]
+    ck.verdict(dims == ["end - start", "self.nbvar", "1"], "C09.e", None, f"{drv}(m, n, nrhs) = {dims}", "the system solved has one row per sample of the range, nbvar columns, one right-hand side", f"{drv} is called with (m, n, nrhs) = {dims}, not (end - start, self.nbvar, 1): the regression is not solved on the node's rows", line=ln, **where)
+    if drv in ("dgelss", "dgelsd", "dgelsy") and len(args) >= 9:
+        rc = args[8]
+        try:
+            v = float(ast.literal_eval(rc))
+        except (ValueError, SyntaxError):
+            v = None
+        if v is None:
+            ck.unknown("C09.e", None, f"{drv}: rcond = {rc}", "the singular-value threshold is not a constant", line=ln, **where)
+        else:
+            ck.verdict(v <= 2.3e-16, "C09.e", None, f"{drv}: rcond = {rc}", "singular values are discarded at machine precision only: the solution is the least-squares one", f"rcond = {rc}: directions whose singular value is below {rc} times the largest are dropped, so on badly scaled leaves the coefficients and the impurity are those of a truncated fit, not of the least-squares fit", line=ln, **where)
+    # right-hand side: weighted targets of the same rows
+    rhs = [s for s in ast.walk(fi.node) if isinstance(s, ast.Assign) and isinstance(s.targets[0], ast.Subscript) and ex.text(s.targets[0].value, fi, s) in ("self.sample_pC", "pC")]
+    okr = len(rhs) == 1 and src_of(rhs[0].targets[0].slice) == "i - start" and src_of(rhs[0].value) == "self.sample_wy[i]" and any(isinstance(p, ast.For) and src_of(p.iter) == "range(start, end)" and src_of(p.target) == "i" for p in _parents(rhs[0]))
+    ck.verdict(okr, "C09.e", None, rhs[0] if rhs else "pC[i - start] = self.sample_wy[i]", "right-hand side = weighted targets of rows start..end", "the right-hand side of the regression is not the weighted targets of the node's rows, in order", line=getattr(rhs[0], "_orig_lineno", rhs[0].lineno) if rhs else fi.node.lineno, **where)
+
 
 
 def check_b(ck, repo):
@@ -470,7 +567,9 @@ def run(ck):
     check_d(ck, repo)
     try:
         check_b(ck, repo)
+        check_b_state(ck, repo)
         check_c(ck, repo)
+        check_e(ck, repo)
     except ImportError as e:
         ck.unknown("C09.b", None, "Cython parser", f"cannot import Cython's parser: {e}", file="-", function="-", line=0)
     ck.assumptions = [
@@ -481,6 +580,7 @@ def run(ck):
     ck.require_count("C09.a", 7, "co-index, mask, betas row, numbering x2, shape, hstack, dot, predict_leaves, Cython constant feature, nbvar")
     ck.require_count("C09.b", 6, "mean ranges x3, mse triples x3, left/right, update/reset/reverse_reset, improvement")
     ck.require_count("C09.d", 5, "fit and predict under 'mselin' and 'simple'; max_depth, min_samples_leaf")
+    ck.require_count("C09.e", 3, "driver dimensions, rcond, right-hand side")
     ck.require_count("C09.c", 8, "zero-fill, fill, 8 reads with buffer/range checks, _mse, _mean")
 
 
@@ -492,6 +592,9 @@ WITNESSES = [
     {"name": "predict-intercept-first", "file": _P, "rule": "C09.a", "old": "Xone = numpy.hstack([X, pred])", "new": "Xone = numpy.hstack([pred, X])"},
     {"name": "predict-wrong-leaf-row", "file": _P, "rule": "C09.a", "old": "            li = leaves[i]\n", "new": "            li = leaves[0]\n"},
     {"name": "cython-constant-first", "file": LINEAR, "rule": "C09.a", "old": "            for c in range(0, self.nbvar - 1):\n                self.sample_f[idx] = X[ks, c]\n                idx += 1\n            self.sample_f[idx] = 1.\n            idx += 1\n", "new": "            self.sample_f[idx] = 1.\n            idx += 1\n            for c in range(0, self.nbvar - 1):\n                self.sample_f[idx] = X[ks, c]\n                idx += 1\n"},
+    {"name": "linear-rcond-positive", "file": LINEAR, "rule": "C09.e", "old": "cdef float64_t rcond = -1", "new": "cdef float64_t rcond = 1e-7"},
+    {"name": "linear-rhs-unweighted", "file": LINEAR, "rule": "C09.e", "old": "            pC[i-start] = self.sample_wy[i]\n", "new": "            pC[i-start] = self.sample_y[i]\n"},
+    {"name": "common-proxy-weights-to-locals", "file": COMMON, "rule": "C09.b", "old": "        self.children_impurity_weights(&impurity_left, &impurity_right,\n                                       &self.weighted_n_left, &self.weighted_n_right)\n", "new": "        cdef float64_t wl\n        cdef float64_t wr\n        self.children_impurity_weights(&impurity_left, &impurity_right, &wl, &wr)\n"},
     {"name": "common-right-range-from-start", "file": COMMON, "rule": "C09.b", "old": "        self._mean(self.pos, self.end, &mright, weight_right)\n", "new": "        self._mean(self.start, self.end, &mright, weight_right)\n"},
     {"name": "common-mse-wrong-mean", "file": COMMON, "rule": "C09.b", "old": "        impurity_right[0] = self._mse(self.pos, self.end, mright, weight_right[0])\n", "new": "        impurity_right[0] = self._mse(self.pos, self.end, mleft, weight_right[0])\n"},
     {"name": "common-reset-pos-only", "file": COMMON, "rule": "C09.b", "old": "        self._update_weights(self.start, self.end, self.pos, self.start)\n        self.pos = self.start\n", "new": "        self._update_weights(self.start, self.end, self.pos, self.end)\n        self.pos = self.start\n"},
